@@ -628,7 +628,18 @@ def extract_converter_facts(repo: Path) -> dict:
                 and n.args[0].id in ("pyvalue", "val", "value")
             ):
                 by_ref.append(name)
+    # rewriter: does `_update_opset_imports` iterate the used_opsets SET through sorted(...)?
+    rtree = ast.parse((repo / "onnxscript/rewriter/_rewrite_rule.py").read_text())
+    imports_sorted = None
+    for fn in ast.walk(rtree):
+        if isinstance(fn, ast.FunctionDef) and fn.name == "_update_opset_imports":
+            for n in ast.walk(fn):
+                if isinstance(n, ast.For):
+                    it = n.iter
+                    imports_sorted = isinstance(it, ast.Call) and isinstance(it.func, ast.Name) and it.func.id == "sorted"
+                    break
     return {
+        "opsetImportsSorted": imports_sorted,
         "stateFields": state,
         "resetFields": sorted(resets & set(state)),
         "freshPerScript": bool(fresh),
@@ -700,7 +711,8 @@ def emit_lean(data: dict) -> str:
         "  { stateFields := " + llist(data["converter"]["stateFields"])
         + ", resetFields := " + llist(data["converter"]["resetFields"])
         + f", freshPerScript := {str(data['converter']['freshPerScript']).lower()}"
-        + ", constByRefSites := " + llist(data["converter"]["constByRefSites"]) + " }",
+        + ", constByRefSites := " + llist(data["converter"]["constByRefSites"])
+        + f", opsetImportsSorted := {str(bool(data['converter'].get('opsetImportsSorted'))).lower()}" + " }",
         "",
         "end OV.Gen.C14Stash",
         "",
